@@ -221,6 +221,9 @@ func (k *keeper) Read(ctx context.Context, from ebu.Offset, limit int) ([]*ebu.S
 func TestC13Patterns(t *testing.T) {
 	run := vk.New("C13", "patterns")
 	defer run.Finish()
+	if run.Shard == 0 {
+		busyErrorHandler(run)
+	}
 	maxLen := run.Scale(6, 11)
 	idx := 0
 	// every fail/succeed bit pattern of length 1..maxLen; on top of each, one unencodable publish of
